@@ -253,3 +253,43 @@ impl RecvHandler {
             .unwrap_or_else(|e| warn!(error = %e,"Could not send packet to handler"));
     }
 }
+
+#[cfg(feature = "verif-hooks")]
+impl RecvHandler {
+    /// Verification hook: a receive handler that is not driven by a UDP socket. Datagrams are
+    /// handed to it with `verif_handle_inbound`; decoded packets arrive on the returned channel.
+    /// The UDP socket it holds is bound to an ephemeral loopback port and never read.
+    pub(crate) async fn verif_new(
+        filter_config: FilterConfig,
+        ban_duration: Option<Duration>,
+        local_node_id: enr::NodeId,
+        protocol_identity: ProtocolIdentity,
+        expected_responses: Arc<RwLock<HashMap<SocketAddr, usize>>>,
+    ) -> std::io::Result<(Self, mpsc::Receiver<RecvPacket>)> {
+        let recv = Arc::new(UdpSocket::bind("127.0.0.1:0").await?);
+        let (handler, handler_recv) = mpsc::channel(256);
+        let (_exit_sender, exit) = oneshot::channel();
+        Ok((
+            RecvHandler {
+                recv,
+                second_recv: None,
+                expected_responses,
+                filter: Filter::new(filter_config, ban_duration),
+                node_id: local_node_id,
+                protocol_identity,
+                handler,
+                exit,
+            },
+            handler_recv,
+        ))
+    }
+
+    /// Verification hook: processes one datagram exactly as if it had been read from the socket
+    /// (the receive buffer truncates datagrams to `MAX_PACKET_SIZE`).
+    pub(crate) async fn verif_handle_inbound(&mut self, src_address: SocketAddr, data: &[u8]) {
+        let mut buffer = [0u8; MAX_PACKET_SIZE];
+        let length = data.len().min(MAX_PACKET_SIZE);
+        buffer[..length].copy_from_slice(&data[..length]);
+        self.handle_inbound(src_address, length, &buffer).await;
+    }
+}
